@@ -64,6 +64,44 @@ theorem odd_is_warned (s : St) (mid seq : Nat) :
   simp only [process, warnStep, oweAck]
   split <;> simp
 
+/-- **a plain-text frame is ignored by a session that works under its auth key**: whatever the frame carries —
+new_session_created or bad_server_salt with a new salt, an rpc_result or a bad_msg_notification naming a pending
+request, an update, a container of these, nested or not — the step is enabled (the loop does not stop) and the
+next state is the old one with one more warning. Nothing else moves: not the salt, not what is owed to the
+session store, not the pending requests, nothing is handed to a caller, nothing is owed an acknowledgement, no
+history variable is touched. (Anybody on the path can write such a frame: no key is needed for it. Property C04
+asks that a packet yields a message only under the session's key id; the machine describes a keyed session.) -/
+theorem plain_frame_is_ignored (s : St) (mid : Nat) (m : Msg) :
+    step s (.plain mid m) = some { s with warnings := s.warnings + 1 } := rfl
+
+/-- … and so for any number of them in a row: the state after `fs` is the state before, `fs.length` warnings later -/
+theorem plain_frames_are_ignored (fs : List (Nat × Msg)) : ∀ (s : St),
+    run s (fs.map fun f => Ev.plain f.1 f.2) = some { s with warnings := s.warnings + fs.length } := by
+  induction fs with
+  | nil => intro s; rfl
+  | cons f fs ih =>
+    intro s
+    simp only [List.map_cons, run, plain_frame_is_ignored, ih, List.length_cons]
+    congr 2
+    omega
+
+/-- the contrast: the same messages accepted as messages of the server (`recv`) do move the salt, the store and the
+pending request; as plain-text frames they move nothing -/
+example :
+    (run {} [.send 0 1000 1 5, .recv 71 1 (.news 77), .recv 75 3 (.res 1000 "forged")]).map
+        (fun s => (s.salt, s.owedStore, s.pending, s.warnings)) = some (77, [77], [], 0) ∧
+    (run {} [.send 0 1000 1 5, .recv 71 1 (.news 77), .recv 75 3 (.res 1000 "forged")]).map
+        (fun s => (s.owedDeliver, s.owedAck)) = some ([(0, 1000, "forged")], [71, 75]) :=
+  ⟨by decide +kernel, by decide +kernel⟩
+example :
+    (run {} [.send 0 1000 1 5, .plain 71 (.news 77), .plain 75 (.res 1000 "forged"),
+             .plain 79 (.cont [(72, 1, .salt 1000 9), (76, 3, .badmsg 1000), (80, 5, .odd)])]).map
+        (fun s => (s.salt, s.owedStore, s.pending, s.warnings)) = some (0, [], [(1000, 0)], 3) ∧
+    (run {} [.send 0 1000 1 5, .plain 71 (.news 77), .plain 75 (.res 1000 "forged"),
+             .plain 79 (.cont [(72, 1, .salt 1000 9), (76, 3, .badmsg 1000), (80, 5, .odd)])]).map
+        (fun s => (s.owedDeliver, s.owedAck)) = some ([], []) :=
+  ⟨by decide +kernel, by decide +kernel⟩
+
 /-- the decoder never panics on a message body (restated from C15, for the registry of the working tree) -/
 theorem body_decoding_total (gz : Bytes → Option Bytes) (fuel : Nat) (hints : List Mtv.TL.Ty) (body : Bytes)
     (hh : Mtv.TL.AllVec hints) :
@@ -74,7 +112,7 @@ theorem body_decoding_total (gz : Bytes → Option Bytes) (fuel : Nat) (hints : 
 example :
     (run {} [.recv 11 1 .odd, .recv 13 3 (.res 424242 "stray"), .recv 16 4 (.cont []),
              .recv 21 5 (.cont [(17, 7, .cont [(15, 9, .badmsg 99)])]), .recv 24 6 .quiet,
-             .send 0 1000 1 0, .recv 27 11 (.res 1000 "probe"), .deliver 0 "probe"]).map
-      (fun s => (s.delivered, s.warnings)) = some ([(0, 1000, "probe")], 3) := by decide +kernel
+             .send 0 1000 1 0, .plain 25 (.res 1000 "forged"), .recv 27 11 (.res 1000 "probe"), .deliver 0 "probe"]).map
+      (fun s => (s.delivered, s.warnings)) = some ([(0, 1000, "probe")], 4) := by decide +kernel
 
 end Mtv.Client
